@@ -133,9 +133,14 @@ def install_symbolic(cpu_count=None, nondet_set=None):
             d['mp'] = _CpuCount(cpu_count)
     MODS['mab'].__dict__['isinstance'] = _sx_isinstance
     if nondet_set is not None:
-        for n in ('mab', 'approximate', 'treebandit', 'base_mab'):
-            MODS[n].__dict__['set'] = nondet_set
+        install_set(nondet_set)
     _STATE['mode'] = 'sym'
+
+
+def install_set(cls):
+    """bind the builtin name `set` of the mabwiser modules (PYTHONHASHSEED model)"""
+    for n in ('mab', 'approximate', 'treebandit', 'base_mab', 'neighbors', 'clusters', 'linear', 'utils'):
+        MODS[n].__dict__['set'] = cls
 
 
 def install_concrete(level, script=None, log=None):
